@@ -38,7 +38,11 @@ fn main() {
             gpa_verif::runner::SHRINK_ITERS.store(3000, std::sync::atomic::Ordering::Relaxed);
             let n = params.share(if th { 600_000 } else { 20_000 });
             Drive { params: &params, stats: &mut stats, known: &known }.run("c10.schedules", 10, c10::strategy(), n, |c, s| c10::eval(&rig, c, s));
-            (c10::RULE.into(), assumptions)
+            // the same pairing, with the key keeper itself as the writer: C09's histories (documents, rotations, a host that
+            // names a key the guest never stored, acquire/attest faults), the agent's own clients signing after every step
+            let n = params.share(if th { 6_000 } else { 160 });
+            Drive { params: &params, stats: &mut stats, known: &known }.run("c10.keeper", 109, c09::strategy(), n, |c, s| c09::eval_mode(&rig, c, s, true));
+            (format!("{} third engine (c10.keeper): {}", c10::RULE, c09::RULE), assumptions)
         }
         "C16" => {
             gpa_verif::runner::SHRINK_ITERS.store(3000, std::sync::atomic::Ordering::Relaxed);
